@@ -142,16 +142,19 @@ def from_model_req(mr):
 # ---------------------------------------------------------------- TLC legs
 
 def mc_cfg(name, menu, checked, depth, objs, pols="BuiltinPols", mut="none", autoinc=True, reset_ph=True,
-           emit=False, props=True):
-    lines = ["SPECIFICATION Spec", "CONSTANTS", '  Mut = "%s"' % mut, "  Menu <- %s" % menu,
+           emit=False, props=True, view="view", consts=None, mkreq="Identity", restarts=True):
+    lines = ["SPECIFICATION Spec", "CONSTANTS", '  Mut = "%s"' % mut, "  Menu <- %s" % menu, "  MkReq <- %s" % mkreq,
              "  Pols <- %s" % pols, "  MaxDepth = %d" % depth, "  MaxObjs = %d" % objs,
              "  AUTOINC = %s" % ("TRUE" if autoinc else "FALSE"),
-             "  RESET_PH = %s" % ("TRUE" if reset_ph else "FALSE"), "  Checked <- %s" % checked]
+             "  RESET_PH = %s" % ("TRUE" if reset_ph else "FALSE"), "  Checked <- %s" % checked,
+             "  RESTARTS = %s" % ("TRUE" if restarts else "FALSE")]
+    for k, v in (consts or {}).items():
+        lines.append("  %s %s" % (k, v))
     if props:
         lines += ["PROPERTY StepOK", "INVARIANT StoreOK"]
     if emit:
         lines += ["ACTION_CONSTRAINT Emit"]
-    lines += ["VIEW view", "CHECK_DEADLOCK FALSE"]
+    lines += ["VIEW %s" % view, "CHECK_DEADLOCK FALSE"]
     return tlc.write_cfg(name, "\n".join(lines) + "\n")
 
 
@@ -396,6 +399,8 @@ def judge(run, traces, only=None, workers=None, name="t"):
                     nviol += 1
     for d in Dr:
         tr = by_tid[d["tid"]]
+        if tr.get("injected"):
+            continue          # artificial faults are outside the model by construction
         s = tr["steps"][d["i"] - 1]
         _save_drift(run, tr, d)
         run.note_drift({"tid": d["tid"], "i": d["i"], "what": d["what"], "model": d.get("model"),
